@@ -64,6 +64,12 @@ Proof.
   destruct (is_ws_or_comment (node_tok x)); [apply IH; apply (nodes_ok_tail _ _ H) | exact H].
 Qed.
 
+Lemma nodes_ok_skip_comments : forall l, nodes_ok l -> nodes_ok (skip_comments l).
+Proof.
+  induction l as [|x r IH]; intro H; [exact H|]. cbn [skip_comments].
+  destruct (is_comment (node_tok x)); [apply IH; apply (nodes_ok_tail _ _ H) | exact H].
+Qed.
+
 Lemma cur_pos_ok : forall l endp, nodes_ok l -> Sp endp -> Sp (cur_pos l endp).
 Proof. intros l endp H He. destruct l as [|x r]; [exact He|]. apply (nodes_ok_head _ _ H). Qed.
 
@@ -216,8 +222,8 @@ Proof.
   destruct x as [t p|open p body e c]; [|apply Pw_qr_loop; [exact Hl | exact H]].
   destruct t; try (apply Pw_qr_loop; [exact Hl | exact H]).
   destruct (nodes_ok_cons _ _ Hl) as [_ Hr].
-  pose proof (nodes_ok_skip_ws _ Hr) as Hr1.
-  destruct (skip_ws r) as [|y r2]; [exact H|].
+  pose proof (nodes_ok_skip_comments _ Hr) as Hr1.
+  destruct (skip_comments r) as [|y r2]; [exact H|].
   destruct (nodes_ok_cons _ _ Hr1) as [_ Hr2].
   match goal with |- Pw (snd match match ?s with _ => _ end with _ => _ end) => destruct s as [inv|] end;
     [|apply Pw_qr_loop; [exact Hl | exact H]].
@@ -246,7 +252,7 @@ Proof.
     destruct open; try exact H; try (split; [assumption | split; assumption]).
     destruct (str_eqb s s_layer).
     { apply IH; [exact Hrl | constructor; [exact Hx | exact Hc] |].
-      apply Pw_tok_at; [exact Hx|]. apply Pw_cn_body; [exact Hb | auto with pw]. }
+      apply Pw_tok_at; [exact Hx|]. apply Pw_rpx_body; [exact Hb | auto with pw]. }
     destruct (str_eqb s s_supports).
     { apply IH; [exact Hrl | constructor; [exact Hx | exact Hc] |].
       apply Pw_tok_at; [exact Hx|]. apply Pw_tok_at; [exact Hx|].
@@ -388,8 +394,8 @@ Proof.
   destruct x as [t p|open p body e c]; [|apply qr_loop_rest_ok; exact Hl].
   destruct t; try (apply qr_loop_rest_ok; exact Hl).
   destruct (nodes_ok_cons _ _ Hl) as [_ Hr].
-  pose proof (nodes_ok_skip_ws _ Hr) as Hr1.
-  destruct (skip_ws r) as [|y r2]; [intros q []|].
+  pose proof (nodes_ok_skip_comments _ Hr) as Hr1.
+  destruct (skip_comments r) as [|y r2]; [intros q []|].
   destruct (nodes_ok_cons _ _ Hr1) as [_ Hr2].
   match goal with |- nodes_ok (fst match match ?s with _ => _ end with _ => _ end) => destruct s as [inv|] end;
     [|apply qr_loop_rest_ok; exact Hl].
